@@ -6,7 +6,7 @@ from operator import attrgetter
 from itertools import islice
 from typing import Tuple, Sequence, Any, Iterable, Dict, MutableSequence, MutableMapping, Union, overload
 
-from coba.random import random
+from coba.random import CobaRandom
 from coba.pipes import Pipes, HttpSource, ArffReader, DropRows, LabelRows
 from coba.context import CobaContext
 from coba.primitives import Sparse, Dense, Source
@@ -154,7 +154,8 @@ class OpenmlSource(Source[Iterable[Tuple[Union[MutableSequence, MutableMapping],
         # if semaphore is not None it indictes that we are in a CobaMultiprocessor.
         # When this is the case we stagger/limit our hits of the REST API to be considerate.
         # Openml doesn't publish any rate-limiting guidelines, so our staggering is a guess.
-        if semaphore: time.sleep(2*random())
+        #(The pause is drawn from a generator of our own. The module level one belongs to whoever is being evaluated while we download.)
+        if semaphore: time.sleep(2*CobaRandom().random())
 
         n_yielded = 0
 
